@@ -366,6 +366,19 @@ func GenEngineScript(r *Rng, o EngineGenOpts, hist map[string]int) []string {
 					add("bget %s", genEngKey(r, hist))
 				}
 			}
+			if r.Chance(1, 4) {
+				// the operating system refuses the write of this Commit: nothing of the batch becomes visible, and the
+				// next batch commits as if this one had never been
+				add("commitfail")
+				add("commit") // rejected as a second Commit - or the Commit itself when the fault could not be injected
+				add("dump")
+				add("batch %d", r.Intn(2))
+				add("bput %s %s", genEngKey(r, hist), genEngVal(r, o, c, hist))
+				if r.Chance(1, 2) {
+					add("bdel %s", genEngKey(r, hist))
+				}
+				hist["op_commit_refused_by_os"]++
+			}
 			add("commit")
 			add("dump")
 			if r.Chance(1, 5) {
